@@ -669,6 +669,11 @@ reprocess:
 			{
 			char *arg_string;
 			arg_string = va_arg(ap, char *);
+			if (location >= max_len) {
+				/* no room left, "max_len - location" below
+				 * would wrap around */
+				return max_len;
+			}
 			if (arg_string == NULL) {
 				location += my_strlcpy(&serialize[location],
 						   "(null)",
